@@ -25,14 +25,29 @@ if TYPE_CHECKING:
     from _delb.xpath.ast import EvaluationContext
 
 
-@plugin_manager.register_xpath_function
-def concat(_: EvaluationContext, *strings: str) -> str:
-    return "".join(strings)
+def _to_string(value: Any) -> str:
+    # https://www.w3.org/TR/1999/REC-xpath-19991116/#function-string
+    if isinstance(value, str):
+        return value
+    if isinstance(value, bool):
+        return "true" if value else "false"
+    if value != value:
+        return "NaN"
+    if value in (float("inf"), float("-inf")):
+        return "Infinity" if value > 0 else "-Infinity"
+    if value == int(value):
+        return str(int(value))
+    return repr(float(value))
 
 
 @plugin_manager.register_xpath_function
-def contains(_: EvaluationContext, string: str, substring: str) -> bool:
-    return substring in string
+def concat(_: EvaluationContext, *strings: Any) -> str:
+    return "".join(_to_string(x) for x in strings)
+
+
+@plugin_manager.register_xpath_function
+def contains(_: EvaluationContext, string: Any, substring: Any) -> bool:
+    return _to_string(substring) in _to_string(string)
 
 
 @plugin_manager.register_xpath_function
@@ -56,8 +71,8 @@ def position(context: EvaluationContext) -> int:
 
 
 @plugin_manager.register_xpath_function("starts-with")
-def starts_with(_: EvaluationContext, string: str, prefix: str) -> bool:
-    return string.startswith(prefix)
+def starts_with(_: EvaluationContext, string: Any, prefix: Any) -> bool:
+    return _to_string(string).startswith(_to_string(prefix))
 
 
 @plugin_manager.register_xpath_function
